@@ -109,7 +109,8 @@ def run(ctx):
     corpus_inputs = gl.load_corpus("C15")
     runs = [("corpus", ["-mode", "corpus"]),
             ("random", ["-mode", "random", "-n", 450 if quick else 8000]),
-            ("nearmiss", ["-mode", "nearmiss", "-n", 250 if quick else 4000])]
+            ("nearmiss", ["-mode", "nearmiss", "-n", 250 if quick else 4000]),
+            ("sweep", ["-mode", "sweep", "-n", 1 if quick else 4])]
     terms, jsons, err = vlib.harness_cases(ctx, binp, runs)
     if not err and corpus_inputs:
         t2, j2, err = gl.run_replay(ctx, binp, corpus_inputs, "corpusdir")
@@ -173,6 +174,9 @@ def run(ctx):
                 "non-trivial = some step passes a non-blank extension, a tag, a source, a foreign error or "
                 "takes a stack; distinct by (factory, steps)",
         "exhaustive": False,
+        "exhaustive_note": "finite sub-sweep: every ordered pair of the 19 methods as a two-step chain with fixed non-empty "
+                           "arguments, from 1 (quick) / all 4 (thorough) factory presets (361 / 1444 chains); the chain "
+                           "space itself is infinite and is covered by the theorems",
         "by_kind": gl.hist(j["kind"] for j in jsons),
         "chain_length_histogram": gl.hist(len(j["steps"]) for j in jsons),
         "method_histogram": gl.hist(s["m"] for j in jsons for s in j["steps"]),
